@@ -299,3 +299,37 @@ Proof.
   - destruct Hf as [Hb Hn]. split; [assumption|]. cbn [fst snd]. split; [lia|]. rewrite Hn. reflexivity.
   - destruct Hf. apply clr_id; assumption.
 Qed.
+
+(* ------------------------------------------------------------------ *)
+(* which simple glyphs the writer accepts (does not panic on)           *)
+Fixpoint cum_ok (cur : Z) (cs : list (list point)) : Prop :=
+  match cs with
+  | [] => True
+  | c :: r => 1 <= cur + zlen c <= 65535 /\ cum_ok (cur + zlen c) r
+  end.
+Lemma end_points_accepts cs : forall cur, cum_ok cur cs -> exists e, end_points cur cs = Some e.
+Proof.
+  induction cs as [|c cs IH]; intros cur H; [exists []; reflexivity|].
+  destruct H as [Hc Hr]. destruct (IH _ Hr) as [t Et]. cbn [end_points].
+  unfold chk_u, in_u. change (2 ^ 16) with 65536.
+  replace ((0 <=? (cur + zlen c) mod 65536 - 1) && ((cur + zlen c) mod 65536 - 1 <? 65536)) with true by lia.
+  cbn [obind]. rewrite Et. cbn [obind]. eexists. reflexivity.
+Qed.
+(* every glyph with < 32767 contours, < 65535 instruction bytes, every cumulative point count in
+   1..65535 (so: first contour non-empty, at most 65535 points) and successive deltas representable in
+   i16 is accepted *)
+Lemma simple_accepted g :
+  sglyph_ok g -> zlen (g_contours g) < 32767 -> zlen (g_instr g) < 65535 ->
+  cum_ok 0 (g_contours g) -> deltas_fit 0 0 (concat (g_contours g)) ->
+  exists bytes, write_simple 0 g = Some bytes.
+Proof.
+  intros (Hpts & _ & _) Hnc Hil Hcum Hfit. unfold write_simple.
+  replace (32767 <=? zlen (g_contours g)) with false by lia.
+  replace (65535 <=? zlen (g_instr g)) with false by lia.
+  destruct (zlen (g_contours g) =? 0); [eexists; reflexivity|].
+  destruct (end_points_accepts _ 0 Hcum) as [e ->]. cbn [obind].
+  destruct (point_deltas_accepts _ 0 0 Hfit) as [ds Ed]. rewrite Ed. cbn [obind].
+  destruct (point_deltas_spec _ 0 0 ds Ed) as (F1 & _); [unfold i16; lia | unfold i16; lia | apply Forall_concat; exact Hpts |].
+  destruct (flags_rle_roundtrip _ F1) as (bs & Eb & _). fold (dflags ds). rewrite Eb. cbn [obind].
+  eexists. reflexivity.
+Qed.
